@@ -332,6 +332,15 @@ Definition handle_maintenance (cfg : config) (env : mgr_env) (m : mgr_mem) (omt 
 
 (* the iteration once both views of the cluster are at hand *)
 Definition manager_decide (cfg : config) (env : mgr_env) (m : mgr_mem) (cs csd : list (host * node_state)) : prog (gate_res * mgr_mem) :=
+  (* the maintenance record is read first: an acknowledged full maintenance freezes the iteration before the
+     master record is looked up (and possibly re-learned) *)
+  Do 425 (DcsGet PMaintenance) (fun rm =>
+  let omt := match rm with RVal (VMaint mt) => Some mt | _ => None end in
+  let read_failed := match rm with RVal (VMaint _) | RErr ENotFound => false | _ => true end in
+  fe <- (if read_failed then Do 431 (FileExists f_maintenance) (fun r => Ret (match r with RBool b => b | _ => false end)) else Ret false) ;;
+  if fe then Ret (GNext NxMaintenance, m) else
+  if read_failed then Ret (GNext NxManager, m) else      (* unreadable record: nothing is done in this iteration *)
+  if match omt with Some mt => negb (mt_light mt) && mt_paused mt | None => false end then Ret (GNext NxMaintenance, m) else
   mr <- get_current_master cs ;;
   match mr with
   | MrMany => Do 408 (FileWrite f_emerge) (fun _ => Ret (GNext NxManager, m))
@@ -345,12 +354,6 @@ Definition manager_decide (cfg : config) (env : mgr_env) (m : mgr_mem) (cs csd :
         | _ => None end with
   | None => Ret (GNext NxManager, m)
   | Some active =>
-  Do 425 (DcsGet PMaintenance) (fun rm =>
-  let omt := match rm with RVal (VMaint mt) => Some mt | _ => None end in
-  let read_failed := match rm with RVal (VMaint _) | RErr ENotFound => false | _ => true end in
-  fe <- (if read_failed then Do 431 (FileExists f_maintenance) (fun r => Ret (match r with RBool b => b | _ => false end)) else Ret false) ;;
-  if fe then Ret (GNext NxMaintenance, m) else
-  if read_failed then Ret (GNext NxManager, m) else      (* unreadable record: nothing is done in this iteration *)
   let light := match omt with Some mt => mt_light mt | None => false end in
   mh <- handle_maintenance cfg env m omt master ;;
   let m := snd mh in
@@ -365,7 +368,7 @@ Definition manager_decide (cfg : config) (env : mgr_env) (m : mgr_mem) (cs csd :
   | RErr ENotFound => after_requests cfg cs csd active m master light
   | _ => Ret (GNext NxManager, m)
   end)
-  end) end) end.
+  end end) end).
 
 (* the iteration up to the repair tail *)
 Definition manager_gates (cfg : config) (env : mgr_env) (m : mgr_mem) : prog (gate_res * mgr_mem) :=
